@@ -107,6 +107,38 @@ theorem C16_access_sites_safe : Generated.accessSites.all (·.2.safe) = true := 
 
 theorem C16_access_sites_found : Generated.accessSites.length ≥ 30 := by decide
 
+/-- the counter-indexed read of the entries tuple: with the bound check no number of children can make
+it read outside the tuple; without it every surplus child does -/
+theorem C16_entries_loop_safe (arity : Nat) : ∀ (n idx : Nat), idx ≤ arity →
+    entriesLoop true arity n idx ≠ .fault
+  | 0, idx, _ => by unfold entriesLoop; split <;> simp
+  | k + 1, idx, h => by
+      unfold entriesLoop
+      by_cases hi : idx ≥ arity
+      · simp [hi]
+      · simp only [hi, if_false]
+        exact C16_entries_loop_safe arity k (idx + 1) (by omega)
+
+theorem C16_entries_loop_unguarded_faults (arity : Nat) : ∀ (n idx : Nat), idx ≤ arity →
+    arity - idx < n → entriesLoop false arity n idx = .fault
+  | 0, idx, _, h => by omega
+  | k + 1, idx, hle, h => by
+      unfold entriesLoop
+      by_cases hi : idx ≥ arity
+      · simp [hi]
+      · simp only [hi, if_false]
+        exact C16_entries_loop_unguarded_faults arity k (idx + 1) (by omega) (by omega)
+
+example : entriesLoop true 3 5 0 = .raised .runtime ∧ entriesLoop false 3 5 0 = .fault ∧
+    entriesLoop true 3 3 0 = .done := by decide
+
+/-- every unchecked item access has an index that is a literal, a `for` variable running over the
+container's own size, or a counter checked against the bound before the read (generated) -/
+theorem C16_index_sites_bounded :
+    Generated.indexSites.all (fun s => s.2.2 || s.2.1 != "none") = true ∧
+    (Generated.indexSites.filter (fun s => s.2.1 == "guard")).map (·.1) =
+      ["src/treespec/flatten.cpp:TupleGetItem(node.node_entries)#1"] := by decide
+
 /-- every self-recursive walker has the depth guard -/
 theorem C16_recursive_walkers_guarded :
     Generated.recursiveWalkers.all (·.2) = true ∧
